@@ -211,7 +211,7 @@ func TestVerifC13Model(t *testing.T) {
 		bigs := 0
 		fail := func(format string, args ...any) {
 			t.Helper()
-			t.Fatalf("%s", c13Det(fmt.Sprintf("%s\n  history: %s", fmt.Sprintf(format, args...), strings.Join(hist, " ; ")), a.base))
+			t.Fatalf("%s", c13Det(fmt.Sprintf("%s\n  history: %s", fmt.Sprintf(format, args...), strings.Join(hist, " ; ")), a.base, filepath.Base(a.base)))
 		}
 		checkAfter := func(what string) {
 			if d := m.CheckTree(a.root); d != "" {
@@ -431,7 +431,7 @@ func TestVerifC13Model(t *testing.T) {
 		if bigs > 0 {
 			cls = append(cls, "has-3MiB")
 		}
-		desc := strings.Join(hist, ";")
+		desc := c13Det(strings.Join(hist, ";"), a.base, filepath.Base(a.base))
 		if len(desc) > 1000 {
 			desc = desc[:1000] + fmt.Sprintf("…(%d ops)", len(hist))
 		}
